@@ -148,7 +148,8 @@ class Lib:
 
     def dict_literal(self, run, pairs):
         if not pairs:
-            return run.st.alloc(MapO(T.aempty, {'': z3.K(Arm, z3.RealVal(0))}, {'': 'real'}))
+            # an empty dict has no value kind yet: the first store decides it
+            return run.st.alloc(MapO(T.aempty, {}, {}))
         if all(isinstance(k, StrV) for k, _ in pairs):
             return RecordV({k.s: v for k, v in pairs})
         raise Unsupported('dict literal with non-constant keys')
@@ -163,6 +164,9 @@ class Lib:
             run.st.assume(T.amem(m.keys, key.term))
         if m.is_scalar:
             return wrap(m.vkinds[''], m.cols[''][key.term])
+        if set(m.cols) == {'#keys', '#vals'}:
+            # dict of dicts: the inner dict is read by value (the code under verification never mutates it afterwards)
+            return run.st.alloc(MapO(m.cols['#keys'][key.term], {'': m.cols['#vals'][key.term]}, {'': 'real'}))
         return EntryRef(ref.loc, key.term)
 
     def entry_get(self, run, e, field):
@@ -207,11 +211,9 @@ class Lib:
         if isinstance(v, RecordV) or isinstance(v, Ref) and isinstance(run.deref(v), Obj):
             fields = v.fields if isinstance(v, RecordV) else run.deref(v).fields
             nm = m
-            if set(nm.cols) == {''} and z3.is_const(m.keys) and z3.eq(m.keys, T.aempty):
-                nm = MapO(m.keys, {}, {}, None)
             for f, x in fields.items():
                 if f not in nm.cols:
-                    if z3.eq(nm.keys, T.aempty):
+                    if not m.cols:
                         vk = _vkind_of(x)
                         nm.cols[f] = fresh('col_' + f, z3.ArraySort(Arm, VKIND_SORT[vk]))
                         nm.vkinds[f] = vk
@@ -220,7 +222,19 @@ class Lib:
                 nm = nm.with_col(f, z3.Store(nm.cols[f], k, self.col_term(run, nm.vkinds[f], x)))
             if isinstance(v, Ref):
                 nm.record_cls = run.deref(v).cls
+        elif isinstance(v, Ref) and isinstance(run.deref(v), MapO) and run.deref(v).is_scalar and \
+                (not m.cols or set(m.cols) == {'#keys', '#vals'}):
+            inner = run.deref(v)
+            if not m.cols:
+                m = MapO(m.keys, {'#keys': fresh('col_keys', z3.ArraySort(Arm, ASeq)),
+                                  '#vals': fresh('col_vals', z3.ArraySort(Arm, RArr))},
+                         {'#keys': 'dict.keys', '#vals': 'dict.vals'})
+            nm = m.with_col('#keys', z3.Store(m.cols['#keys'], k, inner.keys))
+            nm = nm.with_col('#vals', z3.Store(nm.cols['#vals'], k, inner.cols['']))
         else:
+            if not m.cols:
+                vk = _vkind_of(v)
+                m = MapO(m.keys, {'': fresh('col', z3.ArraySort(Arm, VKIND_SORT[vk]))}, {'': vk})
             if not m.is_scalar:
                 raise Unsupported('scalar store into record map')
             nm = m.with_col('', z3.Store(m.cols[''], k, self.col_term(run, m.vkinds[''], v)))
